@@ -6,5 +6,5 @@ CONSTANTS
   Monotone = TRUE
   Ticks = FALSE
   IdleRec = FALSE
-INVARIANTS TypeOK Inv_NoLaterRound
+INVARIANTS TypeOK Inv_NoLaterRound Inv_RightRound
 VIEW View
